@@ -92,7 +92,8 @@
 
 ; a container value is well-typed in h: its implementation is a live container
 (define-fun okVal ((h Heap) (v Val)) Bool
-  (and (=> ((_ is VList) v) (and (= (select (Kind h) (impl (vlref v))) KLIST)
+  (and (=> ((_ is WInt) v) (inInt (wint v)))
+       (=> ((_ is VList) v) (and (= (select (Kind h) (impl (vlref v))) KLIST)
                                  (= (select (Lptr h) (impl (vlref v))) v)))
        (=> ((_ is VObj) v)  (and (= (select (Kind h) (impl (voref v))) KOBJ)
                                  (= (select (Optr h) (impl (voref v))) v)))))
